@@ -697,6 +697,49 @@ func (fx *Fx) pureGlob(key string) bool {
 	return false
 }
 
+// spawnPre: `go f(args)` / `defer f(args)` on a function under contract: its preconditions hold where it is started
+// (lock-state preconditions excepted: the goroutine's lock state is its own).
+func (fx *Fx) spawnPre(st *State, fn *types.Func, recv *Val, args []Val, call *ast.CallExpr) {
+	sp, key := fx.specFor(fn)
+	if sp == nil || sp.Assumed || fx.c.dry || sp.Flags["spawnpre"] == "" {
+		// (opt-in: the preconditions of most goroutine bodies are representation invariants of their node, established
+		// by its constructor; they are assumptions of the body's proof unless the contract asks for this check)
+		return
+	}
+	sig := fn.Type().(*types.Signature)
+	name := key[strings.Index(key, "|")+1:]
+	bound := map[string]Val{}
+	if recv != nil && sig.Recv() != nil {
+		rv := *recv
+		if _, isPtr := types.Unalias(sig.Recv().Type()).(*types.Pointer); isPtr {
+			if _, valPtr := types.Unalias(rv.GT).Underlying().(*types.Pointer); !valPtr {
+				return // address of an addressable value: not modelled here
+			}
+		}
+		bound["this"] = rv
+		if rn := sig.Recv().Name(); rn != "" && rn != "_" {
+			bound[rn] = rv
+		}
+	}
+	for i := 0; i < sig.Params().Len() && i < len(args); i++ {
+		if pn := sig.Params().At(i).Name(); pn != "" && pn != "_" {
+			bound[pn] = args[i]
+		}
+	}
+	specPos := token.NoPos
+	if fi, ok := fx.w.Funcs[key]; ok {
+		specPos = fi.Body.Lbrace
+	}
+	for k, r := range sp.Requires {
+		if strings.Contains(r.Text, "held(") {
+			continue
+		}
+		env := &SpecEnv{fx: fx, st: st, old: st, bound: bound, pos: specPos, pkg: fx.w.Pkgs[sp.PkgPath]}
+		phi := fx.specBool(env, r.Expr)
+		fx.c.oblige(st, "pre", "spawn:"+clauseAnchor(name, r, k), phi, "precondition of "+name+" where its goroutine is started: "+r.Text, fx.w.pos(call.Pos()))
+	}
+}
+
 func (fx *Fx) applyCall(st *State, fn *types.Func, recv *Val, args []Val, call *ast.CallExpr) []Val {
 	c := fx.c
 	sig := fn.Type().(*types.Signature)
